@@ -94,7 +94,15 @@ pub struct ServerEnd {
     pub key: [u8; 32],
     pub protocol: u64,
     pub addr: SocketAddr,
+    /// second public address of the same server
+    pub alt: SocketAddr,
     pub max_clients: usize,
+}
+
+impl ServerEnd {
+    pub fn is_at(&self, a: SocketAddr) -> bool {
+        self.addr == a || self.alt == a
+    }
 }
 
 #[derive(Debug, Clone, PartialEq, Eq)]
@@ -119,10 +127,11 @@ pub fn mk_server(i: usize, key_n: u64, protocol: u64, max_clients: usize, now: D
         current_time: now,
         max_clients,
         protocol_id: protocol,
-        public_addresses: vec![server_addr(i)],
+        // every server is reachable under two public addresses; tokens usually list the first
+        public_addresses: vec![server_addr(i), server_addr(i + 20)],
         authentication: if secure { ServerAuthentication::Secure { private_key: k } } else { ServerAuthentication::Unsecure },
     });
-    ServerEnd { server, key: k, protocol, addr: server_addr(i), max_clients }
+    ServerEnd { server, key: k, protocol, addr: server_addr(i), alt: server_addr(i + 20), max_clients }
 }
 
 impl NetWorld {
@@ -246,7 +255,7 @@ impl NetWorld {
             self.server_advance(s, dt);
             if let Some(did) = self.client_update(c, dt) {
                 let d = self.pool[did].clone();
-                if d.to == self.servers[s].addr {
+                if self.servers[s].is_at(d.to) {
                     self.pool[did].presented += 1;
                     let out = self.server_recv(s, d.src, &d.bytes);
                     let reply = match out {
@@ -424,7 +433,7 @@ pub struct StepOut {
 
 impl NetWorld {
     pub fn server_by_addr(&self, a: SocketAddr) -> Option<usize> {
-        self.servers.iter().position(|s| s.addr == a)
+        self.servers.iter().position(|s| s.is_at(a))
     }
 
     pub fn client_by_addr(&self, a: SocketAddr) -> Vec<usize> {
@@ -454,7 +463,7 @@ impl NetWorld {
             let b = self.pool[r].bytes.clone();
             self.pool[r].presented += 1;
             // the transport only hands over datagrams coming from the address the client talks to
-            if self.clients[c].client.server_addr() == self.servers[s].addr {
+            if self.servers[s].is_at(self.clients[c].client.server_addr()) {
                 self.client_recv(c, &b);
                 so.reply_delivered = true;
             }
@@ -482,7 +491,7 @@ impl NetWorld {
         let d = self.pool[did].clone();
         let mut res = vec![];
         for c in self.client_by_addr(d.to) {
-            if self.clients[c].client.server_addr() == d.src {
+            if self.clients[c].client.server_addr() == d.src || self.servers.iter().any(|s| s.addr == d.src && s.is_at(self.clients[c].client.server_addr())) {
                 self.pool[did].presented += 1;
                 let p = self.client_recv(c, &d.bytes);
                 res.push((c, p));
